@@ -806,6 +806,20 @@ func (c *FnCtx) pureApp(st *State, key string, sig *types.Signature, recv *Term,
 			name += fmt.Sprintf("_r%d", i)
 		}
 		c.smt.fun(name, sorts, rsort)
+		// the static result type of a library function gives the dynamic type of a non-nil pointer result
+		// (library functions only: a repository function may return a pointer converted from another named pointer type -
+		// same reference, other static type)
+		if pt, ok := types.Unalias(rt).Underlying().(*types.Pointer); ok && rsort == SInt && len(all) > 0 && !strings.HasPrefix(key, repoPrefix) {
+			if _, isNamed := types.Unalias(pt.Elem()).(*types.Named); isNamed {
+				var bs, vs []string
+				for k, so := range sorts {
+					bs = append(bs, fmt.Sprintf("(rt!%d %s)", k, so))
+					vs = append(vs, fmt.Sprintf("rt!%d", k))
+				}
+				app := "(" + name + " " + strings.Join(vs, " ") + ")"
+				c.smt.axiom("restype:"+name, fmt.Sprintf("(forall (%s) (! (=> (not (= %s 0)) (= (dyntype %s) %s)) :pattern (%s)))", strings.Join(bs, " "), app, app, c.typeTag(rt), app), false, name)
+			}
+		}
 		var r *Term
 		if len(all) == 0 {
 			r = leaf("("+name+")", rsort)
